@@ -472,6 +472,13 @@ class Doist(tyming.Tymist):
         """
         if deeds is None:
             deeds = self.deeds
+            # when interrupted or extended mid recur .deeds is rotated about
+            # the run through once marker so restore enter order from .doers
+            rank = lambda deed: (self.doers.index(deed[2]) if deed[2] in self.doers
+                                 else len(self.doers))
+            ordered = sorted((deed for deed in deeds if deed[0]), key=rank)
+            deeds.clear()
+            deeds.extend(ordered)
 
         while(deeds):  # .close each remaining dog in deeds in reverse order
             dog, retime, doer = deeds.pop()  # pop it off in reverse (right side)
@@ -530,6 +537,9 @@ class Doist(tyming.Tymist):
                 rdeeds.append((dog, retyme, doer))  # add to removal deque
             else:  # keep deed do not remove and close
                 deeds.append((dog, retyme, doer))  # reappend
+
+        # mid recur .deeds is rotated about marker so restore enter order from .doers
+        rdeeds = deque(sorted(rdeeds, key=lambda deed: self.doers.index(deed[2])))
 
         for doer in rdoers:  # update .doers to remove rdoers
             self.doers.remove(doer)
@@ -1351,6 +1361,13 @@ class DoDoer(Doer):
         """
         if deeds is None:
             deeds = self.deeds
+            # when interrupted or extended mid recur .deeds is rotated about
+            # the run through once marker so restore enter order from .doers
+            rank = lambda deed: (self.doers.index(deed[2]) if deed[2] in self.doers
+                                 else len(self.doers))
+            ordered = sorted((deed for deed in deeds if deed[0]), key=rank)
+            deeds.clear()
+            deeds.extend(ordered)
 
         while(deeds):  # .close each remaining dog in deeds in reverse order
             dog, retime, doer = deeds.pop()  # pop it off in reverse (right side)
@@ -1409,6 +1426,9 @@ class DoDoer(Doer):
                 rdeeds.append((dog, retyme, doer))  # add to removal deque
             else:  # keep deed do not remove and close
                 deeds.append((dog, retyme, doer))  # reappend
+
+        # mid recur .deeds is rotated about marker so restore enter order from .doers
+        rdeeds = deque(sorted(rdeeds, key=lambda deed: self.doers.index(deed[2])))
 
         for doer in rdoers:  # update .doers to remove rdoers
             self.doers.remove(doer)
